@@ -133,7 +133,12 @@ pub fn gen_c08(em: &mut Emitter, rng: &mut Rng) {
     em.rule = "(v, lower, upper) over the boundary lattice {MIN, MIN+1, -2..2, MAX-1, MAX} × {bound-1, bound, bound+1} × three bound patterns plus \
                random triples hugging their bounds: real create / verify verdicts vs the Lean arithmetic (prover pre-check, verifier satisfiability in \
                the field); for out-of-range values a deviating holder proves a range it satisfies and presents it under the verifier's bounds with the \
-               verifier's challenge (steered prover). oracle: created ⇔ in range, accepted ⇔ in range".into();
+               verifier's challenge (steered prover). oracle: created ⇔ in range, accepted ⇔ in range; \
+               one-sided and two-sided statements in both call orders on fresh threads".into();
     run_suite::<Bbs>(em, rng, "bbs");
     run_suite::<Ps>(em, rng, "ps");
+    if em.shard_i == 0 {
+        crate::c03::call_order_flows::<Bbs>(em, &mut rng.sub(808), "bbs", "c08");
+        crate::c03::call_order_flows::<Ps>(em, &mut rng.sub(809), "ps", "c08");
+    }
 }
